@@ -318,12 +318,12 @@ LOCAL_ALIASES = {}
 
 
 def binding_order(fdef):
-    """names bound in the function body, in order of first binding (parameters first)"""
+    """names bound in the function body, one entry per binding SITE in source order (parameters first; a name bound at
+    several sites - re-assigned, or reused as the variable of a second loop - appears once per site)"""
     out = []
 
     def add(n):
-        if n not in out:
-            out.append(n)
+        out.append(n)
 
     for a in fdef.args.posonlyargs + fdef.args.args + fdef.args.kwonlyargs:
         add(a.arg)
@@ -395,13 +395,18 @@ def set_local_aliases(qname, fdef, recorded):
         return
     cur = binding_order(fdef)
     if len(cur) != len(recorded) or cur == recorded:
-        return
-    m = {}
+        return  # same names, or binding sites were added / removed: the names are used as written
+    images = {}
     for old, new in zip(recorded, cur):
-        if old != new:
-            if old in cur or new in recorded:
-                return  # not a pure rename (names swapped / reused): fall back to the names as written
-            m[old] = new
+        images.setdefault(old, []).append(new)
+    m = {}
+    for old, news in images.items():
+        if old in cur:
+            continue  # the recorded name is still bound somewhere: it keeps its meaning
+        best = max(set(news), key=news.count)
+        if best in recorded:
+            return  # names were swapped / recycled: not a pure rename
+        m[old] = best
     LOCAL_ALIASES.update(m)
 
 
